@@ -70,7 +70,12 @@ fn main() -> Result<(), String> {
 
     // TODO: should introduce a config object to gather options on the CLI etc.
     let max_drift_ppb = match args.max_drift_rate {
-        Some(rate) => rate * 1000,
+        Some(rate) => rate.checked_mul(1000).ok_or_else(|| {
+            format!(
+                "The max drift rate of {} ppm does not fit in a 32-bit parts-per-billion value.",
+                rate
+            )
+        })?,
         None => {
             warn!("Using the default max drift rate of 1PPM, which is likely wrong. \
                   Update chrony configuration and clockbound to a value that matches your hardware.");
